@@ -94,6 +94,19 @@ def arg_matrix(a):
     return arr
 
 
+def engine_param_value(B, case, idx):
+    """declared value (column-major list) of the idx-th parameter declaration (a global one)"""
+    off = 0
+    for k, d in enumerate(case["params"]):
+        if d.get("grid", "") != "":
+            continue
+        n = d["rows"] * d["cols"]
+        if k == idx:
+            return [float(Fr(v)) for v in case["param_values"]["p"][off:off + n]]
+        off += n
+    raise KeyError(idx)
+
+
 def apply_calls0(B, ocp, case, ca):
     transcribed = False
     for c in case["calls"]:
@@ -178,6 +191,12 @@ def worker(args_):
                 fargs.append(e)
                 fvals.append(ca.DM(M_))
             res = result_exprs(B, case, ca, lambda e, g: ocp.sample(e, grid=g)[1], lambda e: ocp.value(e))
+            if case.get("refetch"):
+                pr = B.objs["p"][case["refetch"]["idx"]]
+                declared = ca.DM(engine_param_value(B, case, case["refetch"]["idx"])).reshape(pr.shape)
+                ocp.set_value(pr, ca.DM([float(Fr(v)) for v in case["refetch"]["old"]]).reshape(pr.shape))
+                ocp.to_function("f", fargs, [r for _, r in res])       # first request (discarded)
+                ocp.set_value(pr, declared)
             f = ocp.to_function("f", fargs, [r for _, r in res])
             fo = f.call(fvals)
             out["tf"] = [(nm, np.array(v).reshape(-1, order="F").tolist()) for (nm, _), v in zip(res, fo)]
@@ -395,6 +414,20 @@ def gen_cases(seed, n, opts):
         c["calls"] = calls
         c["args"] = gen_args(rng, c)
         c["id"] = "C19-%d-%d" % (seed, i)
+        # every third case asks for the same Function twice: an unlisted global parameter has another value at the
+        # first request, and gets its declared value before the second one ("arguments not listed keep their
+        # current values": the values at the time of the request)
+        listed = set()
+        for a in c["args"]:
+            if a["what"] == "param":
+                listed.add(a["idx"])
+            elif a["what"] == "pcat":
+                listed.update(a["idxs"])
+        free = [k for k, d in enumerate(c["params"]) if d.get("grid", "") == "" and k not in listed]
+        if i % 3 == 0 and free and "param" not in c.get("T", {}) and "param" not in c.get("t0", {}):
+            k = rng.choice(free)
+            d = c["params"][k]
+            c["refetch"] = {"idx": k, "old": [jq(dyadic(rng, -2, 2, 2)) for _ in range(d["rows"] * d["cols"])]}
         out.append((c, []))
     return out
 
